@@ -9,13 +9,6 @@ Set Implicit Arguments.
 Definition pmap_t := forall (A B : Type), (A -> B) -> list A -> list B.
 Definition seq_pmap : pmap_t := fun A B f l => map f l.
 
-Fixpoint sequence {A} (l : list (res A)) : res (list A) :=
-  match l with
-  | [] => Ok []
-  | Ok x :: r => do xs <- sequence r; Ok (x :: xs)
-  | Panic c :: _ => Panic c
-  end.
-
 Section LearnGen.
   Variable N : Num.
   Notation T := (T N).
